@@ -6,6 +6,7 @@ import (
 	"fmt"
 	"os"
 	"path/filepath"
+	"regexp"
 	"runtime"
 	"strings"
 	"sync"
@@ -896,6 +897,29 @@ func garbage(k int, longLen int, s sets, light bool, emit func(item)) {
 				emit(item{x: Exp{Line: strings.Join(del, " "), Form: "token-deleted"}, pid: "77"})
 				dup := append(append(append([]string{}, parts[:i+1]...), parts[i]), parts[i+1:]...)
 				emit(item{x: Exp{Line: strings.Join(dup, " "), Form: "token-duplicated"}, pid: "77"})
+				// the token emptied (two blanks in a row where it stood) and replaced by a lone blank (three)
+				for _, fill := range []string{"", " "} {
+					bl := append(append(append([]string{}, parts[:i]...), fill), parts[i+1:]...)
+					emit(item{x: Exp{Line: strings.Join(bl, " "), Form: "token-blanked"}, pid: "4711"})
+				}
+			}
+			// words (runs of letters, digits and _ . / + = -) emptied one at a time and two neighbours at a time,
+			// punctuation and blanks left where they are: 'ssh2: RSA SHA256:abc' -> 'ssh2:  SHA256:abc', 'ssh2:  :abc'
+			toks := wordRE.FindAllString(l, -1)
+			var widx []int
+			for i, tk := range toks {
+				if wordRE1.MatchString(tk) {
+					widx = append(widx, i)
+				}
+			}
+			for k := range widx {
+				for span := 1; span <= 2 && k+span <= len(widx); span++ {
+					cp := append([]string{}, toks...)
+					for _, wi := range widx[k : k+span] {
+						cp[wi] = ""
+					}
+					emit(item{x: Exp{Line: strings.Join(cp, ""), Form: "word-blanked"}, pid: "4711"})
+				}
 			}
 			for i := 1; i < len(parts); i++ { // every connective / separator inserted at every token boundary
 				for _, c := range connectives {
@@ -1090,7 +1114,7 @@ func runGarbage(t *testing.T, run *mc.Run, prop string) int {
 		})
 	}
 	cov := mc.Coverage{Level: "exploration", Evaluations: int(n), Distinct: int(keyworded), Exhaustive: complete, Samples: sm.samples,
-		Rule:  fmt.Sprintf("(i) every string of <=%d tokens over a %d-token alphabet (all dispatch keywords, every connective/separator of the regular expressions, NUL, invalid UTF-8, newline, a %d-byte run); (ii) for every valid line of the reduced C06 product: every byte truncation, every single-token deletion and duplication, every connective inserted at every token boundary, every keyword swap, junk prefix/suffix, doubling; (iii) 8 odd pid tokens on every valid line; each through the real ProcessSshdLogEntry under recover. distinct_nontrivial = lines that begin with a dispatch keyword (reach a regular expression)", k, len(tokens)+1, long),
+		Rule:  fmt.Sprintf("(i) every string of <=%d tokens over a %d-token alphabet (all dispatch keywords, every connective/separator of the regular expressions, NUL, invalid UTF-8, newline, a %d-byte run); (ii) for every valid line of the reduced C06 product: every byte truncation, every single-token deletion, duplication and blanking, every word and every pair of neighbouring words emptied, every connective inserted at every token boundary, every keyword swap, junk prefix/suffix, doubling; (iii) 8 odd pid tokens on every valid line; each through the real ProcessSshdLogEntry under recover. distinct_nontrivial = lines that begin with a dispatch keyword (reach a regular expression)", k, len(tokens)+1, long),
 		Extra: map[string]any{"lines_per_class": sm.forms, "lines_with_keyword": keyworded, "lines_that_emitted_an_event": emitted, "token_bound": k}}
 	if prop == "C11" {
 		cov.Rule += "; and the token strings of <= 2 tokens plus the light mutations of every valid line once more, each alone, as a line written to a real FIFO read by the real syslog ingester"
@@ -1327,3 +1351,8 @@ var otherSshdLines = []string{
 	"Received disconnect from 1.2.3.4 port 22:11: disconnected by user",
 	"error: maximum authentication attempts exceeded for a from 1.2.3.4 port 22 ssh2 [preauth]",
 }
+
+var (
+	wordRE  = regexp.MustCompile(`[A-Za-z0-9_./+=-]+|[^A-Za-z0-9_./+=-]`)
+	wordRE1 = regexp.MustCompile(`^[A-Za-z0-9_./+=-]+$`)
+)
